@@ -11,6 +11,7 @@ import FlatccModel.Layout
 import FlatccModel.Trie
 import FlatccModel.TrieGen
 import FlatccModel.Base64
+import FlatccModel.JsonScan
 import FlatccModel.Builder
 import FlatccModel.Alloc
 import FlatccModel.StructGraph
@@ -336,7 +337,7 @@ def schemaNumOp (op : String) (args : List String) : String :=
        | some v => s!"ok {u64Of v}"
        | none => "reject")
     | _, _ => "unmodelled"
-  | "enum", [_, ty, items] =>
+  | "enum", [ob, ty, items] =>
     match styOf ty with
     | some st =>
       let ms : List (Option (Option Val)) := (items.splitOn ",").map (fun t =>
@@ -345,7 +346,7 @@ def schemaNumOp (op : String) (args : List String) : String :=
         | some l => (match readLit l with | .invalid => none | v => some (some v))
         | none => none)
       if ms.any Option.isNone then "reject" else
-      (match enumValues st none (ms.map (fun m => m.getD none)) with
+      (match (if natArg ob / 2 % 2 == 1 then enumFlagValues else enumValues) st none (ms.map (fun m => m.getD none)) with
        | some vs => "ok " ++ ",".intercalate (vs.map (fun v => toString (u64Of v)))
        | none => "reject")
     | none => "unmodelled"
@@ -533,11 +534,60 @@ def b64Op (args : List String) : String :=
     bytesToHex (printRooms ((rooms.splitOn ",").map natArg) (hexToBytes hex) (natArg mode))
   | _ => "bad-op"
 
+/-- jscan <fn> <flags> <startpos> <hex>: see OUT/h_jscan.c. flags: the parser flags, +256 = `ctx->unquoted` initially set,
++512 = model the build with FLATCC_JSON_PARSE_WIDE_SPACE=1.
+answer: `<pos|err:class> <error_loc|-> p<returned pos> m<more> u<unquoted> l<line> c<pos field>` -/
+def jscanErrName (e : Nat) : String :=
+  match e with
+  | 2 => "deep_nesting" | 4 => "expected_colon" | 5 => "unexpected_character" | 6 => "invalid_numeric"
+  | 9 => "unbalanced_array" | 10 => "unbalanced_object" | 13 => "unknown_symbol" | 16 => "expected_string"
+  | 17 => "invalid_character" | 18 => "invalid_escape" | 20 => "unterminated_string" | 21 => "expected_object"
+  | 22 => "expected_array" | n => s!"e{n}"
+
+def jscanOp (args : List String) : String :=
+  open Flatcc.JsonScan in
+  match args with
+  | [fn, flagsS, startS, hex] =>
+    let inp := (hexToBytes hex).toArray
+    let fl := natArg flagsS
+    let i := natArg startS
+    let c : Ctx := { flags := fl % 256, unquoted := fl / 256 % 2 == 1, wide := fl / 512 % 2 == 1 }
+    let two (r : M (Nat × Ctx)) : M (Nat × Ctx × Bool) := r >>= fun x => .ok (x.1, x.2, false)
+    let r : Option (M (Nat × Ctx × Bool)) :=
+      match fn with
+      | "space" => some (two (space inp i c))
+      | "spaceext" => some (two (spaceExt inp i c))
+      | "number" => some (two (number inp i c))
+      | "skipconst" => some (two (skipConstant inp i c))
+      | "unmatched" => some (two (unmatchedSymbol inp i c))
+      | "generic" => some (two (generic inp i c))
+      | "symstart" => some (two (symbolStart inp i c))
+      | "symend" => some (two (symbolEnd inp i c))
+      | "conststart" => some (two (constantStart inp i c))
+      | "strstart" => some (two (stringStart inp i c))
+      | "strend" => some (two (stringEnd inp i c))
+      | "strpart" => some (two (stringPart inp i c))
+      | "stresc" => some (two (stringEscape inp i c))
+      | "objstart" => some (objectStart inp i c)
+      | "objend" => some (objectEnd inp i c)
+      | "arrstart" => some (arrayStart inp i c)
+      | "arrend" => some (arrayEnd inp i c)
+      | _ => none
+    match r with
+    | none => "bad-op"
+    | some (.error .oob) => "MODEL-OOB"
+    | some (.error .fuel) => "MODEL-FUEL"
+    | some (.ok (p, c', more)) =>
+      let head := if c'.error != 0 then s!"err:{jscanErrName c'.error} {c'.errorLoc}" else s!"{p} -"
+      s!"{head} p{p} m{if more then 1 else 0} u{if c'.unquoted then 1 else 0} l{c'.line} c{c'.pos}"
+  | _ => "bad-op"
+
 def step (line : String) : String :=
   match line.trimAscii.toString.splitOn " " with
   | "num" :: args => numOp args
   | "build" :: args => buildOp args
   | "b64" :: args => b64Op args
+  | "jscan" :: args => jscanOp args
   | "alloc" :: args => allocOp args
   | "sgraph" :: args => sgraphOp args
   | "refmap" :: args => refmapOp args
